@@ -73,6 +73,10 @@ pub struct BuildOpts {
     pub count_by_flowsets: bool,
     /// V9 PROTOCOL bytes are restricted to numbers with a named variant (0..=144, 255)
     pub proto_named: bool,
+    /// never emit a template for this (protocol, id selector): its data sets are still
+    /// encoded under definition 0, so that they decode once that template is delivered
+    /// (C07)
+    pub withhold: Option<(Proto, u8)>,
 }
 
 impl BuildOpts {
@@ -84,6 +88,7 @@ impl BuildOpts {
         varlen_monotone: false,
         count_by_flowsets: false,
         proto_named: false,
+        withhold: None,
     };
     pub const WIDE: BuildOpts = BuildOpts {
         auto_define: true,
@@ -93,6 +98,7 @@ impl BuildOpts {
         varlen_monotone: false,
         count_by_flowsets: false,
         proto_named: false,
+        withhold: None,
     };
 }
 
@@ -269,6 +275,12 @@ fn build_sets(
                 out.n_sets += 1;
             }
         };
+    let withheld = |idx: usize| -> bool {
+        match o.withhold {
+            Some((p, sel)) => p == proto && (sel as usize * pool.ids.len()) >> 8 == idx,
+            None => false,
+        }
+    };
     for sp in sets {
         if out.bytes.len() > PKT_BUDGET {
             break;
@@ -278,6 +290,9 @@ fn build_sets(
                 let mut run: Vec<(u16, Def)> = vec![];
                 for (ii, di) in recs {
                     let idx = (*ii as usize * pool.ids.len()) >> 8;
+                    if withheld(idx) {
+                        continue;
+                    }
                     let id = pool.ids[idx];
                     let d = pick(&defs[idx], *di).clone();
                     if let Some(last) = run.last() {
@@ -295,7 +310,8 @@ fn build_sets(
             SetPlan::Data(ii, recs, pad) => {
                 let idx = (*ii as usize * pool.ids.len()) >> 8;
                 let id = pool.ids[idx];
-                if !table.contains_key(&id) {
+                let wh = withheld(idx);
+                if !wh && !table.contains_key(&id) {
                     if !o.auto_define {
                         // data for an unknown id: opaque body from the entropy
                         let body: Vec<u8> = recs.iter().flatten().cloned().collect();
@@ -309,7 +325,7 @@ fn build_sets(
                     let d = defs[idx][0].clone();
                     emit_tpl_run(&mut out, &[(id, d)], 0, table);
                 }
-                let def = table.get(&id).unwrap().clone();
+                let def = if wh { defs[idx][0].clone() } else { table.get(&id).unwrap().clone() };
                 let min = def.min_record_len();
                 if min == 0 {
                     continue;
@@ -367,7 +383,9 @@ fn build_sets(
                 out.bytes.extend_from_slice(&sw.0);
                 out.n_sets += 1;
                 out.n_records += n;
-                out.n_data_records += n;
+                if !wh {
+                    out.n_data_records += n;
+                }
             }
         }
     }
@@ -961,6 +979,7 @@ pub const HOSTILE_OPTS: BuildOpts = BuildOpts {
     varlen_monotone: false,
     count_by_flowsets: false,
     proto_named: false,
+    withhold: None,
 };
 
 pub fn build_hostile(h: &HostilePlan) -> Case {
